@@ -324,3 +324,73 @@ func init() {
 		return 0
 	})
 }
+
+// c11fresh: scenarios built from scratch many times in one process; Go randomises every map iteration, so a result that depends on
+// it shows up as two different result strings for the same scenario. stdout: one line per scenario {name, results: {string: count}}.
+func init() {
+	register("c11fresh", func(args []string) int {
+		fs := flag.NewFlagSet("c11fresh", flag.ExitOnError)
+		reps := fs.Int("reps", 150, "repetitions per scenario")
+		fs.Parse(args)
+		mk := func(root string, types [][2]string) *jschema.Schema {
+			s := jschema.New("root", root)
+			for _, t := range types {
+				_ = s.AddType(t[0], jschema.New(t[0], t[1]))
+			}
+			return s
+		}
+		scenarios := []struct {
+			name string
+			run  func() string
+		}{
+			{"nested added types with an or rule: root -> @T -> @U", func() string {
+				u := jschema.New("@U", `1 // {or: [{type: "integer"}, {type: "string"}]}`)
+				t := jschema.New("@T", `{"u": @U}`)
+				_ = t.AddType("@U", u)
+				r := jschema.New("root", `{"t": @T}`)
+				_ = r.AddType("@T", t)
+				return errStr(r.Check()) + " | " + errStr(r.Validate(jdoc.New("d", `{"t":{"u":"x"}}`)))
+			}},
+			{"two types with a broken allOf rule", func() string {
+				return errStr(mk(`1`, [][2]string{{"@A", "{ // {allOf: \"@X\"}\n}"}, {"@B", "{ // {allOf: \"@I\"}\n}"}, {"@I", "1"}}).Check())
+			}},
+			{"three broken types of three kinds", func() string {
+				return errStr(mk(`{"a": @A, "b": @B, "c": @C}`, [][2]string{{"@A", `5 // {min: 10}`}, {"@B", `"s" // {minLength: 3}`}, {"@C", "{ // {allOf: \"@Z\"}\n}"}}).Check())
+			}},
+			{"several required keys missing", func() string {
+				return errStr(mk(`{"a": 1, "b": 2, "c": 3, "d": 4, "e": 5}`, nil).Validate(jdoc.New("d", `{}`)))
+			}},
+			{"two unknown keys and two missing keys", func() string {
+				return errStr(mk(`{"a": 1, "b": 2, "c": 3}`, nil).Validate(jdoc.New("d", `{"x": 1, "c": 3, "y": 2}`)))
+			}},
+			{"example and used types of a schema with many types", func() string {
+				s := mk(`{"a": @A, "b": @B | @C, "d": [@D], @K: 1}`, [][2]string{{"@A", "1"}, {"@B", `"b"`}, {"@C", "true"}, {"@D", `{"x": @A}`}, {"@K", `"k" // {regex: "k"}`}})
+				ex, e1 := s.Example()
+				u, e2 := s.UsedUserTypes()
+				return string(ex) + errStr(e1) + fmt.Sprint(u) + errStr(e2)
+			}},
+			{"or of four alternatives against a value none admits", func() string {
+				return errStr(mk(`1 // {or: [{type: "integer", min: 5}, {type: "string"}, {type: "boolean"}, "@N"]}`, [][2]string{{"@N", "null"}}).Validate(jdoc.New("d", `2`)))
+			}},
+		}
+		w := newNDWriter("-")
+		defer w.Close()
+		for _, sc := range scenarios {
+			res := map[string]int{}
+			for i := 0; i < *reps; i++ {
+				r := "?"
+				func() {
+					defer func() {
+						if p := recover(); p != nil {
+							r = fmt.Sprint("PANIC ", p)
+						}
+					}()
+					r = sc.run()
+				}()
+				res[r]++
+			}
+			w.Write(map[string]interface{}{"name": sc.name, "results": res})
+		}
+		return 0
+	})
+}
